@@ -51,7 +51,7 @@ def measured_strict():
 def cases_1d(rng, tier):
     strict = measured_strict()
     cs = C.CaseSet('resize1d', ['C16.Syntax', 'Gen.Padding', 'C16.Model', 'C16.Corr'], 'check1', 'case1')
-    nmax, mmax = (5, 7) if tier == 'quick' else (7, 11)
+    nmax, mmax = (5, 7) if tier == "quick" else (8, 13)
     for mode, d in itertools.product(MODES, DIRS):
         for n, m in itertools.product(range(0, nmax + 1), range(0, mmax + 1)):
             for off in range(-2, abs(m - n) + 3):
@@ -83,7 +83,7 @@ def cases_nd(rng, tier):
     strict = measured_strict()
     cs = C.CaseSet('resizeNd', ['C16.Syntax', 'Gen.Padding', 'C16.Model', 'C16.ModelNd', 'C16.Corr'],
                    'checkN', 'caseN')
-    nper = 12 if tier == 'quick' else 60
+    nper = 40 if tier == "quick" else 300
     for mode, d in itertools.product(MODES, DIRS):
         for k in range(nper):
             ndim = rng.choice([2, 2, 2, 3]) if k % 6 else 1
@@ -171,7 +171,7 @@ def cases_op(rng, tier):
                                    'C16.Corr'], 'checkOp', 'caseOp')
     fixed = measured_fixed()
     adjguard = measured_adjguard()
-    nper = 10 if tier == 'quick' else 50
+    nper = 30 if tier == "quick" else 200
     for mode in MODES:
         for k in range(nper):
             ndim = rng.choice([1, 1, 2])
@@ -486,6 +486,21 @@ def probes(rng, tier):
     return out
 
 
-LEVEL_TEXT = 'TODO'
-LEVEL_NOTE = 'TODO'
+LEVEL_TEXT = ('Proof: for the slice arithmetic and legality guards regenerated from odl/util/numerics.py on every run, '
+              'Coq proves for EVERY input length, output length (growing, shrinking, equal), admissible offset, pad mode '
+              'and all contents that the 1-d resize_array (a) computes exactly the named rule as an index formula '
+              '(constant, periodic wrap, symmetric reflection without edge repeat, order0, order1), (b) rejects padding '
+              'lengths outside the documented limits, (c) has an adjoint direction that is the exact transpose '
+              '(<Rx,y> = <x,R^T y>), (d) crop after extend is the identity; and for the range built by ResizingOperator: '
+              'unchanged cell sides, the interval enlarged by exactly the added cells, offset recovered from the grids. '
+              'One clause is proved FALSE of the code as it stands (restriction with explicit offset misplaces the range) '
+              'and proved for the repaired sign convention. N-d (per-axis loop with working slices, mixed grow/shrink) and '
+              'the operator wrapper are tied by exact in-Coq correspondence, and the N-d array is also checked to equal the '
+              'composition of the proved 1-d maps along the axes; the N-d lift itself is validated, not proved.')
+LEVEL_NOTE = ('Trusted: the translator (fail-closed, small grammar), the hand-written Python-slice semantics / NumPy 1-d '
+              'broadcasting and statement sequences of _assign_intersection/_apply_padding/resize_array (validated by the '
+              'correspondence on all modes x directions x lengths 0..5 x 0..7 x all offsets incl. illegal ones), exact '
+              'arithmetic (rounding out of scope), dtype casting rules (np.can_cast is an input). Weighted adjoint identity '
+              'holds only for uniformly weighted spaces with equal constants: two recorded findings. Axioms: classical '
+              'reals as printed.')
 TECHNIQUE = 'Coq proof by list induction over source-regenerated slice arithmetic + in-Coq differential correspondence'
